@@ -122,6 +122,17 @@ def call_builtin(ip, f, args, kwargs):
             ip.guard([("TypeError", z3.Not(z3.Or(V.is_dict(zo), V.is_seq(zo)))), ("ValueError", z3.And(V.is_seq(zo), z3.Length(V.seq_items(zo)) > 0))])
             ip.path.assume(V.is_dict(zo))
             return FreshZ(zo, None, False)          # a shallow copy: same value, fresh identity
+        if args:
+            # dict(<iterable of key/value pairs>) with a concrete spine (e.g. dict(zip(names, values)))
+            items = ip.try_iter_concrete(args[0])
+            if items is not None:
+                pairs = []
+                for it in items:
+                    kv = ip.try_iter_concrete(it) if not isinstance(it, Z) else None
+                    if kv is None or len(kv) != 2:
+                        raise Unsupported("dict(...) of items that are not concrete pairs")
+                    pairs.append((kv[0], kv[1]))
+                return LDict(ip.merge_pairs(pairs) + [(C(k), v) for k, v in kwargs.items()])
         raise Unsupported("dict(...) of this argument")
     if f is _b.set:
         if not args:
